@@ -315,6 +315,7 @@ FN_COUNTER = [0]
 METHOD_COUNTER = [0]
 ALL_FNS = {}      # name -> Fn  (callee lookup)
 METHODS = []      # dispatchable methods in order
+UNMOCK_NEG = []   # methods that must NOT be un-mockable (concrete deps, entraited traits)
 
 
 RET_TEXT = {"u64": " -> u64", "unit": "", "refarg": " -> &'a u64", "refdeps": " -> &'a u64",
@@ -661,6 +662,30 @@ single(Fn("r_u32", ("impl", ["F0"]), ["u64"], ret="u32r", calls=["f0"]))
 single(Fn("r_i32", ("any", []), [], ret="i32r"))
 single(Fn("r_usize", ("impl", ["F0"]), [], ret="usizer"))
 single(Fn("ar_u8", ("impl", ["Af0"]), ["u64"], ret="u8r", is_async=True))
+# bare-path attributes below `#[entrait]`: built-in markers and a user attribute macro whose
+# expansion allocates (declared) inside the function it is applied to
+single(Fn("hs_sync", ("impl", ["F0"]), ["u64", "u64"], below="#[gensim_attrs::heap_scratch]", calls=["f0"], props=("C01", "C14")))
+single(Fn("hs_async", ("impl", ["Af0"]), ["u64", "u64"], is_async=True, below="#[gensim_attrs::heap_scratch]", calls=["af0"], props=("C01", "C14")))
+single(Fn("hs_nd", ("nodeps", []), ["u64", "u64"], opts="no_deps", below="#[gensim_attrs::heap_scratch]", props=("C01", "C14")))
+single(Fn("hs_inline", ("impl", ["F0"]), ["u64", "u64"], below="#[inline]", props=("C01", "C14")))
+single(Fn("hs_cold", ("impl", ["F0"]), ["u64", "u64"], below="#[cold]", props=("C01", "C14")))
+single(Fn("hs_track", ("impl", ["F0"]), ["u64", "u64"], below="#[track_caller]", props=("C01", "C14")))
+single(Fn("hs_must", ("impl", ["F0"]), ["u64", "u64"], below="#[must_use]", props=("C01", "C14")))
+single(Fn("hs_args", ("impl", ["F0"]), ["u64", "u64"], below="#[gensim_attrs::heap_scratch(twice)]", props=("C01", "C14")))
+module("hsmod", "Hsmod", [Fn("hsm_a", ("impl", ["F0"]), ["u64", "u64"], below="#[gensim_attrs::heap_scratch]"),
+                          Fn("hsm_b", ("impl", ["Af0"]), ["u64", "u64"], is_async=True, below="#[gensim_attrs::heap_scratch]"),
+                          Fn("hsm_c", ("impl", ["F0"]), ["u64", "u64"], below="#[inline(always)]")], props=("C01", "C14"))
+# the generated trait's name is a substring / prefix / suffix of a dependency bound's name
+single(Fn("pre_fix", ("any", []), ["u64"], trait="PreFix", props=("C01", "C14")))
+single(Fn("apre_fix", ("any", []), ["u64"], is_async=True, trait="ApreFix", props=("C01", "C14")))
+single(Fn("pre", ("impl", ["PreFix"]), ["u64", "u64"], calls=["pre_fix"], trait="Pre", props=("C01", "C14")))
+single(Fn("apre", ("impl", ["ApreFix"]), ["u64", "u64"], is_async=True, calls=["apre_fix"], trait="Apre", props=("C01", "C14")))
+single(Fn("fix_suffix", ("impl", ["PreFix"]), ["u64"], calls=["pre_fix"], trait="Fix", props=("C01", "C14")))
+single(Fn("afix_suffix", ("impl", ["ApreFix", "PreFix"]), ["u64"], is_async=True, calls=["apre_fix"], trait="Fix2", props=("C01", "C14")))
+single(Fn("a_infix", ("gen", ["ApreFix"]), ["u64"], is_async=True, calls=["apre_fix"], trait="reF", props=("C01", "C14")))
+single(Fn("apre_fix_more", ("impl", ["ApreFix"]), ["u64"], is_async=True, calls=["apre_fix"], trait="ApreFixMore", props=("C01", "C14")))
+module("apremod", "Apr", [Fn("apm_a", ("impl", ["ApreFix"]), ["u64", "u64"], is_async=True, calls=["apre_fix"]),
+                          Fn("apm_b", ("impl", ["PreFix"]), ["u64", "u64"], calls=["pre_fix"])], props=("C01", "C14"))
 # no_deps
 single(Fn("nd0_bool", ("nodeps", []), [], opts="no_deps", ret="boolr"))
 single(Fn("nd0_u32", ("nodeps", []), [], opts="no_deps", ret="u32r"))
@@ -824,6 +849,19 @@ single(Fn("ary16", ("impl", ["F0"]), ["u64"] * 16))
 single(Fn("ndary12", ("nodeps", []), ["u64"] * 12, opts="no_deps"))
 module("m12", "M12", [Fn(f"m12_{i}", ("impl", ["F0"]), ["u64", "u64"]) for i in range(12)])
 module("am12", "Am12", [Fn(f"am12_{i}", ("impl", ["Af0"]), ["u64", "u64"], is_async=True) for i in range(12)])
+
+
+# ==== families whose parameter lists are permutations of one another (same names, same types)
+_PERMS = [("from", "to", "amount"), ("to", "from", "amount"), ("amount", "to", "from"), ("to", "amount", "from")]
+for _i, _pm in enumerate(_PERMS):
+    single(Fn(f"perm{_i}", ("impl", ["F0"]), [f"name={n}:u64" for n in _pm], calls=["f0"]))
+    single(Fn(f"aperm{_i}", ("impl", ["Af0"]), [f"name={n}:u64" for n in _pm], is_async=True))
+    single(Fn(f"ndperm{_i}", ("nodeps", []), [f"name={n}:u64" for n in _pm], opts="no_deps"))
+module("mperm", "Mperm", [Fn(f"mperm{_i}", ("impl", ["F0"]), [f"name={n}:u64" for n in _pm]) for _i, _pm in enumerate(_PERMS)])
+single(Fn("perm_ab", ("impl", ["F0"]), ["name=a:u64", "name=b:u64"]))
+single(Fn("perm_ba", ("impl", ["F0"]), ["name=b:u64", "name=a:u64"]))
+single(Fn("perm_ref_ab", ("impl", ["F0"]), ["name=a:ref", "name=b:ref"]))
+single(Fn("perm_ref_ba", ("impl", ["F0"]), ["name=b:ref", "name=a:ref"]))
 
 
 # ==== more parameter names ==================================================
@@ -998,7 +1036,8 @@ def self_impl_fn_text(fn, id_expr):
     return f"{attrs}    {asy}fn {fn.name}{g}({', '.join(params)}){ret} {{\n{body}\n    }}\n"
 
 
-def trait_section(name, delegate, methods, async_trait=False, generic=False, supers="", scoped=False, dual=False):
+def trait_section(name, delegate, methods, async_trait=False, generic=False, supers="", scoped=False, dual=False,
+                  nosend=False, opts_pre="", opts_post="", flavours=()):
     """delegate: 'self' | 'ref' | 'borrow'; scoped: declare everything inside a
     module that imports Borrow / AsRef / Deref, as user code commonly does"""
     het = any(fn.hetero for fn in methods)
@@ -1019,7 +1058,8 @@ def trait_section(name, delegate, methods, async_trait=False, generic=False, sup
         METHODS.append(fn)
         ALL_FNS[fn.name] = fn
     opt = {"self": "", "ref": "delegate_by = ref", "borrow": "delegate_by = Borrow"}[delegate]
-    at = "#[async_trait::async_trait]\n" if async_trait else ""
+    opt = ", ".join(x for x in (opts_pre, opt, "?Send" if nosend else "", opts_post) if x)
+    at = ("#[async_trait::async_trait(?Send)]\n" if nosend else "#[async_trait::async_trait]\n") if async_trait else ""
     tg = "<T: Fp>" if generic else ""
     text = f"{cfg}#[entrait({opt})]\n{at}pub trait {name}{tg}{supers} {{\n" + "".join(decl_text(m) for m in methods) + "}\n"
     targ = "<T>" if generic else ""
@@ -1056,6 +1096,15 @@ def trait_section(name, delegate, methods, async_trait=False, generic=False, sup
         else:
             text += (f"{cfg}impl<const K: u16> ::core::borrow::Borrow<dyn {name}> for App<K> {{\n    fn borrow(&self) -> &(dyn {name} + 'static) {{\n"
                      f"        sim::lookup({k});\n        &self.{field}\n    }}\n}}\n")
+        for fl in flavours:
+            # decoy providers handed out through OTHER `dyn` flavours of the same trait
+            # (`dyn Tr + Sync`, `dyn Tr + Send`, ..): a different field, hence a different receiver
+            dfield = f"decoy_{name.lower()}_{fl.replace(' ', '').replace('+', '_').lower()}"
+            APP_FIELDS.append(dfield)
+            tr = "AsRef" if delegate == "ref" else "::core::borrow::Borrow"
+            fnm = "as_ref" if delegate == "ref" else "borrow"
+            text += (f"{cfg}impl<const K: u16> {tr}<dyn {name} + {fl}> for App<K> {{\n    fn {fnm}(&self) -> &(dyn {name} + {fl} + 'static) {{\n"
+                     f"        &self.{dfield}\n    }}\n}}\n")
         if dual:
             # the application ALSO implements the trait itself (reaching it is a mis-forwarding: id 60003)
             text += f"{cfg}{at}impl<const K: u16> {name}{targ} for App<K> {{\n"
@@ -1209,8 +1258,42 @@ trait_section("PlainFut", "self", [
     Fn("pf_drop0", SELF, [], ret="implfut_drop"),
     Fn("apf_async", SELF, ["u64", "u64"], is_async=True),
 ])
-trait_section("PlainSame", "self", [Fn("psame", SELF, ["u64", "same:u64"]), Fn("psame3", SELF, ["u64", "u64", "same:u64"])])
+corpus.append("pub trait SyncMarker: Send + Sync {}\nimpl SyncMarker for Prov {}\nimpl<const K: u16> SyncMarker for App<K> {}\nimpl<T: Send + Sync> SyncMarker for Impl<T> {}\n")
+# `Sync` only implied by a supertrait; the application hands out decoys through `+ Sync` / `+ Send`
+trait_section("ARefInd", "ref", [
+    Fn("ari1", SELF, ["u64", "u64"], is_async=True),
+    Fn("ari_sync", SELF, ["u64", "u64"]),
+], async_trait=True, supers=": SyncMarker + 'static", flavours=("Sync", "Send", "Send + Sync"))
+trait_section("ABorrowInd", "borrow", [
+    Fn("abi1", SELF, ["u64", "u64"], is_async=True),
+    Fn("abi_unit", SELF, ["u64"], ret="unit", is_async=True),
+], async_trait=True, supers=": SyncMarker + 'static", flavours=("Sync", "Send + Sync"))
+trait_section("ByRefFl", "ref", [Fn("rfl1", SELF, ["u64", "u64"]), Fn("rfl2", SELF, ["u64", "u64"])], supers=": 'static", flavours=("Sync", "Send", "Send + Sync"))
+trait_section("ByBorrowFl", "borrow", [Fn("bfl1", SELF, ["u64", "u64"])], supers=": 'static", flavours=("Sync", "Send + Sync"))
+trait_section("ARefFl", "ref", [Fn("arfl1", SELF, ["u64", "u64"], is_async=True)], async_trait=True, supers=": Sync + 'static", flavours=("Sync", "Send + Sync"))
+# option order and company: `delegate_by` before / after `?Send` and other options; the application
+# also implements the trait itself (falling back to `Self` delegation is a mis-forwarding)
+trait_section("NsRefA", "ref", [Fn("nra1", SELF, ["u64", "u64"], is_async=True), Fn("nra_sync", SELF, ["u64", "u64"])],
+              async_trait=True, supers=": 'static", nosend=True, dual=True)
+trait_section("NsRefB", "ref", [Fn("nrb1", SELF, ["u64", "u64"]), Fn("nrb2", SELF, ["u64", "u64"])], supers=": 'static", opts_pre="?Send", dual=True)
+trait_section("NsBorrowA", "borrow", [Fn("nba1", SELF, ["u64", "u64"]), Fn("nba_unit", SELF, ["u64"], ret="unit")], supers=": 'static", nosend=True, dual=True)
+trait_section("OptRefA", "ref", [Fn("ora1", SELF, ["u64", "u64"])], supers=": 'static", opts_post="unimock = false", dual=True)
+trait_section("OptRefB", "ref", [Fn("orb1", SELF, ["u64", "u64"])], supers=": 'static", opts_pre="mockall = false", opts_post="unimock = false", dual=True)
+trait_section("OptBorrowA", "borrow", [Fn("oba1", SELF, ["u64", "u64"])], supers=": 'static", opts_pre="unimock = false, mockall = false", dual=True)
+trait_section("NsPlain", "self", [Fn("nsp1", SELF, ["u64", "u64"], is_async=True), Fn("nsp_sync", SELF, ["u64", "u64"])], nosend=True)
+# entraited traits with a mock API: mockable, never un-mockable
+_ut = [Fn("utr1", SELF, ["u64", "u64"]), Fn("utr_unit", SELF, ["u64"], ret="unit"), Fn("autr1", SELF, ["u64", "u64"], is_async=True)]
+trait_section("UTr", "self", _ut, opts_pre="mock_api = UTrMock")
+_utr = [Fn("utrr1", SELF, ["u64", "u64"]), Fn("utrr2", SELF, ["u64", "u64"])]
+trait_section("UTrRef", "ref", _utr, supers=": 'static", opts_pre="mock_api = UTrRefMock")
+UNMOCK_NEG.extend(_ut + _utr)
+trait_section("PlainSame", "self", [Fn("psame", SELF, ["u64", "same:u64"]), Fn("psame3", SELF, ["u64", "u64", "same:u64"]),
+                                    Fn("psame_first", SELF, ["same:u64", "u64"]), Fn("psame_mid", SELF, ["u64", "same:u64", "u64"]),
+                                    Fn("apsame_first", SELF, ["same:u64", "u64"], is_async=True)])
+trait_section("ByRefSame", "ref", [Fn("rsame_first", SELF, ["same:u64", "u64"]), Fn("rsame_mid", SELF, ["u64", "same:u64", "u64"])], supers=": 'static")
 
+trait_section("PlainPerm", "self", [Fn(f"pperm{_i}", SELF, [f"name={n}:u64" for n in _pm]) for _i, _pm in enumerate(_PERMS)])
+trait_section("ByRefPerm", "ref", [Fn(f"rperm{_i}", SELF, [f"name={n}:u64" for n in _pm]) for _i, _pm in enumerate(_PERMS)], supers=": 'static")
 trait_section("Plain24", "self", [Fn(f"p24_{i}", SELF, ["u64", "u64"]) for i in range(24)])
 trait_section("PlainOdd", "self", [Fn(f"{nme.replace('r#', 'raw_')}_t", SELF, [f"name={nme}:u64", "u64"]) for nme in ODD_NAMES if nme not in ("a", "x1")])
 trait_section("PlainAr12", "self", [Fn("par12", SELF, ["u64"] * 12), Fn("apar12", SELF, ["u64"] * 12, is_async=True)])
@@ -1323,7 +1406,7 @@ def inversion(trait, impl_trait, mode, methods, delegate_ident=None, async_trait
         for mi, (decl, deps, calls) in enumerate(methods):
             if mi in fillers:
                 text += IMPL_FILLERS[mi % len(IMPL_FILLERS)].replace("SPAN", f"SPAN{mi}").replace("NAME", f"NAME{mi}").replace("HIDDEN", f"HIDDEN{mi}")
-            f = Fn(decl.name, deps, [], ret=decl.ret, is_async=decl.is_async, calls=calls, vis="pub")
+            f = Fn(decl.name, deps, [], ret=decl.ret, is_async=decl.is_async, calls=calls, vis="pub", below=getattr(decl, "impl_below", ""))
             f.params = decl.params
             f.fn_id = decl.fn_ids[which]
             text += fn_text(f, indent="    ")
@@ -1463,15 +1546,26 @@ inversion("DynInvAr", "DynInvArImpl", "dyn", [(Fn(f"dar{n}", SELF, ["u64"] * n),
 inversion("InvNames", "InvNamesImpl", "static",
           [(Fn(f"in_{nme}", SELF, ["u64", f"name={nme}:u64"]), ("impl", ["F0"]), ["f0"]) for nme in SUSPICIOUS]
           + [(Fn("isame", SELF, ["u64", "same:u64"]), ("any", []), []), (Fn("isame3", SELF, ["u64", "u64", "same:u64"]), ("impl", ["F0"]), ["f0"]),
-             (Fn("aisame", SELF, ["u64", "same:u64"], is_async=True), ("impl", ["Af0"]), ["af0"])],
+             (Fn("aisame", SELF, ["u64", "same:u64"], is_async=True), ("impl", ["Af0"]), ["af0"]),
+             (Fn("isame_first", SELF, ["same:u64", "u64"]), ("any", []), []), (Fn("isame_mid", SELF, ["u64", "same:u64", "u64"]), ("impl", ["F0"]), ["f0"]),
+             (Fn("aisame_first", SELF, ["same:u64", "u64", "u64"], is_async=True), ("impl", ["Af0"]), ["af0"])],
           delegate_ident="DelegateInvNames")
 inversion("DynInvNames", "DynInvNamesImpl", "dyn",
           [(Fn(f"dn_{nme}", SELF, [f"name={nme}:u64", "u64"]), ("any", []), []) for nme in SUSPICIOUS[:10]]
-          + [(Fn("dsame", SELF, ["u64", "same:u64"]), ("any", []), []), (Fn("dsame3", SELF, ["u64", "u64", "same:u64"]), ("any", []), [])])
+          + [(Fn("dsame", SELF, ["u64", "same:u64"]), ("any", []), []), (Fn("dsame3", SELF, ["u64", "u64", "same:u64"]), ("any", []), []),
+             (Fn("dsame_first", SELF, ["same:u64", "u64"]), ("any", []), []), (Fn("dsame_mid", SELF, ["u64", "same:u64", "u64"]), ("any", []), [])])
 inversion("InvDn", "InvDnImpl", "static",
           [(Fn(f"idn{N}", SELF, ["u64"] * N + ["destr:pair", f"name=arg{N}:pair"]), ("any", []), []) for N in range(0, 3)],
           delegate_ident="DelegateInvDn")
 
+_hs = [Fn("ihs_a", SELF, ["u64", "u64"]), Fn("aihs_b", SELF, ["u64", "u64"], is_async=True), Fn("ihs_c", SELF, ["u64", "u64"])]
+_hs[0].impl_below = "#[gensim_attrs::heap_scratch]"
+_hs[1].impl_below = "#[gensim_attrs::heap_scratch]"
+_hs[2].impl_below = "#[inline]"
+inversion("InvHs", "InvHsImpl", "static", [(_hs[0], ("impl", ["F0"]), ["f0"]), (_hs[1], ("impl", ["Af0"]), ["af0"]), (_hs[2], ("any", []), [])], delegate_ident="DelegateInvHs")
+inversion("InvPerm", "InvPermImpl", "static", [(Fn(f"iperm{_i}", SELF, [f"name={n}:u64" for n in _pm]), ("any", []), []) for _i, _pm in enumerate(_PERMS)],
+          delegate_ident="DelegateInvPerm")
+inversion("DynInvPerm", "DynInvPermImpl", "dyn", [(Fn(f"dperm{_i}", SELF, [f"name={n}:u64" for n in _pm]), ("any", []), []) for _i, _pm in enumerate(_PERMS)])
 inversion("Inv16", "Inv16Impl", "static", [(Fn(f"i16_{i}", SELF, ["u64", "u64"]), ("any", []), []) for i in range(16)]
           + [(Fn("iar12", SELF, ["u64"] * 12), ("any", []), [])], delegate_ident="DelegateInv16")
 
@@ -1537,6 +1631,10 @@ usingle(Fn("und_destr3", ("nodeps", []), ["pair", "destr:pair", "pair"], opts="n
 usingle(Fn("und_wild2", ("nodeps", []), ["wild:u64", "u64", "wild:u64", "u64"], opts="no_deps"), "UndWild2Mock")
 usingle(Fn("und_same", ("nodeps", []), ["u64", "same:u64"], opts="no_deps"), "UndSameMock")
 usingle(Fn("u_same", ("impl", ["U0"]), ["u64", "same:u64"], calls=["u0"]), "USameMock")
+usingle(Fn("und_same_first", ("nodeps", []), ["same:u64", "u64"], opts="no_deps"), "UndSameFirstMock")
+usingle(Fn("u_same_first", ("impl", ["U0"]), ["same:u64", "u64", "u64"], calls=["u0"]), "USameFirstMock")
+for _i, _pm in enumerate(_PERMS[:3]):
+    usingle(Fn(f"undperm{_i}", ("nodeps", []), [f"name={n}:u64" for n in _pm], opts="no_deps"), f"Undperm{_i}Mock")
 usingle(Fn("und_argn", ("nodeps", []), ["destr:pair", "name=arg0:pair"], opts="no_deps"), "UndArgnMock")
 for nme in SUSPICIOUS[:8]:
     usingle(Fn(f"un_{nme}", ("nodeps", []), ["u64", f"name={nme}:u64"], opts="no_deps"), f"Un{nme.capitalize()}Mock")
@@ -1580,6 +1678,31 @@ for f in umn_fns:
     f.section = "unmock"
     UNMOCK.append(f)
 unmock_traits.append(("Umn", False))
+
+
+# functions with a CONCRETE dependency and entraited TRAITS are not un-mockable: on a partial
+# mock with no matching clause the call must be refused (unimock panics), never run a function
+UNMOCK_NEG = []
+
+
+def uneg(fn, mock):
+    fn.opts = (fn.opts + ", " if fn.opts else "") + f"mock_api = {mock}, export"
+    single(fn)
+    fn.section = "unmock_neg"
+    fn.props = ["C01", "C11"]
+    UNMOCK_NEG.append(fn)
+
+
+uneg(Fn("ucn2", ("concrete", ["ConcDep"]), ["u64", "u64"]), "Ucn2Mock")
+uneg(Fn("aucn2", ("concrete", ["ConcDep"]), ["u64", "u64"], is_async=True), "Aucn2Mock")
+uneg(Fn("ucn_unitdep", ("concrete", ["()"]), ["u64", "u64"]), "UcnUnitdepMock")
+uneg(Fn("aucn_unitdep", ("concrete", ["()"]), ["u64", "u64"], is_async=True), "AucnUnitdepMock")
+uneg(Fn("ucn_unitdep0", ("concrete", ["()"]), []), "UcnUnitdep0Mock")
+uneg(Fn("ucn_tup", ("concrete", ["(ConcDep, u64)"]), ["u64", "u64"]), "UcnTupMock")
+uneg(Fn("ucn_u64dep", ("concrete", ["u64"]), ["u64"]), "UcnU64depMock")
+ALL_FNS["ucn_unitdep"].conc_handle = ALL_FNS["aucn_unitdep"].conc_handle = ALL_FNS["ucn_unitdep0"].conc_handle = "conc_unit_impl"
+ALL_FNS["ucn_tup"].conc_handle = "conc_tup_impl"
+ALL_FNS["ucn_u64dep"].conc_handle = "conc_u64_impl"
 
 
 def umodule(name, trait, fns, nodeps=False, fillers=()):
@@ -1849,6 +1972,8 @@ pub struct App<const K: u16> {{
     pub conc_impl: Impl<ConcDep>,
     pub conc_gen_impl: Impl<ConcWrap<u64>>,
     pub conc_tup_impl: Impl<(ConcDep, u64)>,
+    pub conc_unit_impl: Impl<()>,
+    pub conc_u64_impl: Impl<u64>,
 {fields}}}
 pub type AppA = App<0>;
 pub type AppB = App<1>;
@@ -1861,6 +1986,8 @@ impl<const K: u16> App<K> {{
             conc_impl: Impl::new(ConcDep {{ pad: 2 }}),
             conc_gen_impl: Impl::new(ConcWrap(5u64)),
             conc_tup_impl: Impl::new((ConcDep {{ pad: 3 }}, 4)),
+            conc_unit_impl: Impl::new(()),
+            conc_u64_impl: Impl::new(6u64),
 {inits}        }}
     }}
 }}
@@ -1973,6 +2100,19 @@ def arm(fn, ab, is_async, mock=False):
     body = f"        // @C{fn.cid}\n        #[cfg(not(skip_c{fn.cid}))]\n        {fn.method_id} => {{\n"
     for p in pre:
         body += f"            {p}\n"
+    if mock and fn in UNMOCK_NEG:
+        # must be refused: flavor 2 tells the oracle that no function may be entered
+        call = f"app.{fn.name}({args})".replace(", )", ")")
+        if fn.unsafe_:
+            call = f"unsafe {{ {call} }}"
+        body += f"            let __t = sim::call_start_flavor({fn.method_id}, 0, &[{', '.join(fps)}], if flavor == 1 {{ 1 }} else {{ 2 }});\n"
+        if fn.is_async:
+            body += f"            if flavor == 1 {{\n                drop({call});\n                sim::call_end(__t, 0);\n                return 0;\n            }}\n"
+            body += f"            let __fp = match sim::Refusal::new({call}).await {{ Ok(__r) => {ret_fp(fn)}, Err(()) => 0 }};\n"
+        else:
+            body += f"            let __fp = match sim::refusal(|| {call}) {{ Ok(__r) => {ret_fp(fn)}, Err(()) => 0 }};\n"
+        body += f"            sim::call_end(__t, __fp);\n            __fp\n        }}\n        // @C0\n"
+        return body
     body += f"            let __t = sim::call_start_flavor({fn.method_id}, {recv}, &[{', '.join(fps)}], flavor);\n"
     if fn.unsafe_:
         dc, tc = f"unsafe {{ {dc} }}", f"unsafe {{ {tc} }}"
@@ -2011,6 +2151,9 @@ pub struct MethodModel {
     pub callees: &'static [u16],
     pub props: &'static [&'static str],
     pub unmockable: bool,
+    /// not un-mockable (concrete dependency / entraited trait): on a partial mock with no
+    /// matching clause the call must be refused and no function may run
+    pub refuses: bool,
     /// false when the method's corpus container is compiled out (`--cfg skip_c<N>`,
     /// see run.sh: compile-error-driven slicing)
     pub available: bool,
@@ -2026,7 +2169,7 @@ for fn in METHODS:
     disp += (f"    MethodModel {{ id: {fn.method_id}, name: \"{fn.name}\", section: \"{fn.section}\", is_async: {str(fn.is_async).lower()}, "
              f"dynamic: {str(fn.dynamic).lower()}, fn_id: [{fn_ids[0]}, {fn_ids[1]}], nfp: {len(fps)}, nvals: {used}, "
              f"lookups: {getattr(fn, 'lookups', 0)}, lookup_kind: {getattr(fn, 'lookup_kind', 0)}, ret_unit: {str(fn.ret in ('unit', 'explicit_unit', 'resunit', 'implfut_drop')).lower()}, "
-             f"callees: &{callees}, props: &{list(fn.props)!r}, unmockable: {str(fn in UNMOCK).lower()}, "
+             f"callees: &{callees}, props: &{list(fn.props)!r}, unmockable: {str(fn in UNMOCK).lower()}, refuses: {str(fn in UNMOCK_NEG).lower()}, "
              f"available: cfg!(not(skip_c{fn.cid})), container: {fn.cid} }},\n").replace("'", '"')
 disp += "];\n\n"
 
@@ -2046,8 +2189,8 @@ for ab, k in (("A", 0), ("B", 1)):
     disp += dispatch_fn(f"call_sync_{ab.lower()}", f"Impl<App<{k}>>", ab, False, METHODS)
     disp += dispatch_fn(f"call_async_{ab.lower()}", f"Impl<App<{k}>>", ab, True, METHODS)
 cfg = "#[cfg(feature = \"unimock\")]\n"
-disp += dispatch_fn("call_sync_mock", "::unimock::Unimock", "A", False, UNMOCK, mock=True, cfg=cfg)
-disp += dispatch_fn("call_async_mock", "::unimock::Unimock", "A", True, UNMOCK, mock=True, cfg=cfg)
+disp += dispatch_fn("call_sync_mock", "::unimock::Unimock", "A", False, UNMOCK + UNMOCK_NEG, mock=True, cfg=cfg)
+disp += dispatch_fn("call_async_mock", "::unimock::Unimock", "A", True, UNMOCK + UNMOCK_NEG, mock=True, cfg=cfg)
 disp += "pub fn assert_bundles() {}\n"
 
 with open(os.path.join(OUT, "dispatch.rs"), "w") as f:
